@@ -32,13 +32,13 @@ def run(ctx):
     ctx.preload(cfgs)
     for cfg in cfgs:
         fs = ctx.facts(cfg)
-        precedence(ctx, cfg, fs)
-        no_late_none(ctx, cfg, fs)
-        hide(ctx, cfg, fs)
-        hints(ctx, cfg, fs)
-        wrappers(ctx, cfg, fs)
+        ctx.guard(precedence, ctx, cfg, fs)
+        ctx.guard(no_late_none, ctx, cfg, fs)
+        ctx.guard(hide, ctx, cfg, fs)
+        ctx.guard(hints, ctx, cfg, fs)
+        ctx.guard(wrappers, ctx, cfg, fs)
         before = len(ctx.obs)
-        c15.t6(ctx, cfg, fs)
+        ctx.guard(c15.t6, ctx, cfg, fs)
         for o in ctx.obs[before:]: o.rule = 'D.dispatch'
 
 def precedence(ctx, cfg, fs):
